@@ -411,31 +411,27 @@ Qed.
 (* the descriptor table on 64-bit agreeing targets *)
 
 Lemma fold_max_map T fs :
-  Forall (fun f => abi_align T f = snd (ll T f)) fs ->
-  fold_right (fun f m => N.max (abi_align T f) m) 1 fs = max_align (map (ll T) fs).
+  Forall (fun f => abi_align T true f = snd (ll T f)) fs ->
+  fold_right (fun f m => N.max (abi_align T true f) m) 1 fs = max_align (map (ll T) fs).
 Proof.
   induction 1 as [|f r E _ IH]; [reflexivity|]. unfold max_align in *. cbn. now rewrite E, IH.
 Qed.
 
-Lemma abi_align_ll T :
-  agree_target T -> ptr T = 8 -> forall t, wf_ty t = true -> abi_align T t = ll_align T t.
+(* the repaired alignment table IS the LLVM alignment, on every target and every type *)
+Lemma abi_align_ll T : forall t, abi_align T true t = ll_align T t.
 Proof.
-  intros [G [_ [GM L6]]] P8. unfold ll_align.
-  destruct T as [P gm gc l6]; cbn in *. subst.
-  induction t using ty_ind'; intros W; try reflexivity.
-  - cbn in W. unfold wf_int in W.
-    repeat (apply orb_true_iff in W as [W|W]); apply N.eqb_eq in W; subst w; reflexivity.
-  - cbn [abi_align ll]. rewrite (IHt W). now destruct (ll _ t).
-  - cbn [abi_align ll snd]. apply fold_max_map.
-    cbn in W. rewrite forallb_forall in W. rewrite Forall_forall in *. auto.
+  unfold ll_align. induction t using ty_ind'; try reflexivity.
+  - cbn [abi_align ll]. rewrite IHt. now destruct (ll T t).
+  - cbn [abi_align ll snd]. apply fold_max_map. exact H.
 Qed.
 
 Lemma abi_size_ll T :
-  agree_target T -> ptr T = 8 -> forall t, wf_ty t = true -> nzt t = true -> abi_size T t = ll_size T t.
+  agree_target T -> forall t, wf_ty t = true -> nzt t = true -> abi_size T t = ll_size T t.
 Proof.
-  intros A P8. unfold ll_size.
+  intros A. unfold ll_size.
   induction t using ty_ind'; intros W Z;
-    try (destruct A as [G [_ [GM L6]]]; destruct T as [P gm gc l6]; cbn in *; subst; reflexivity).
+    try (destruct A as [G [HP [GM L6]]]; destruct T as [P gm gc l6]; cbn in *; subst;
+         destruct HP; subst; reflexivity).
   - cbn [abi_size ll]. rewrite (IHt W Z). now destruct (ll T t).
   - cbn [abi_size]. change (TStruct (map raw fs)) with (raw (TStruct fs)).
     destruct (go_eq_ll T (raw (TStruct fs)) A) as [E _]; [now rewrite wf_raw|now rewrite nzt_raw|].
@@ -518,8 +514,8 @@ Proof. repeat split. Qed.
 
 Lemma i386_witness :
   agree_target i386 /\ wf_ty w_i32_i64 = true /\ nzt w_i32_i64 = true /\
-  abi_align i386 (TInt 8) = 8 /\ ll_align i386 (TInt 8) = 4 /\ go_align i386 (TInt 8) = 4 /\
-  abi_size i386 w_i32_i64 = 12 /\ abi_align i386 w_i32_i64 = 8.
+  abi_align i386 false (TInt 8) = 8 /\ ll_align i386 (TInt 8) = 4 /\ go_align i386 (TInt 8) = 4 /\
+  abi_size i386 w_i32_i64 = 12 /\ abi_align i386 false w_i32_i64 = 8.
 Proof. unfold agree_target. cbn [gcs ptr gomax ll64 i386]. repeat split; auto. Qed.
 
 Lemma wasm_witness :
@@ -531,5 +527,69 @@ Proof. repeat split. Qed.
 
 Lemma ptrbytes_witness :
   agree_target amd64 /\ wf_ty w_ptr_then_int = true /\ nzt w_ptr_then_int = true /\
-  abi_ptrbytes amd64 w_ptr_then_int = 0 /\ ll_ptr_end amd64 w_ptr_then_int = 8.
+  abi_ptrbytes amd64 false w_ptr_then_int = 0 /\ ll_ptr_end amd64 w_ptr_then_int = 8.
 Proof. unfold agree_target. cbn [gcs ptr gomax ll64 amd64]. repeat split; auto. Qed.
+
+(* ------------------------------------------------------------------ *)
+(* PtrBytes after the repair: exactly the end of the last pointer word *)
+
+Fixpoint lastnz (ops : list (N * N)) : N :=
+  match ops with
+  | [] => 0
+  | (o, p) :: r => let rest := lastnz r in
+                   if rest =? 0 then (if p =? 0 then 0 else o + p) else rest
+  end.
+
+Lemma ll_ptr_end_struct_aux T : forall fs cur,
+  (fix go (cur : N) (l : list ty) : N :=
+     match l with
+     | [] => 0
+     | f :: r => let o := align_up cur (ll_align T f) in
+                 let rest := go (o + ll_size T f) r in
+                 if rest =? 0 then (if ll_ptr_end T f =? 0 then 0 else o + ll_ptr_end T f) else rest
+     end) cur fs
+  = lastnz (combine (offs_from cur (map (ll T) fs)) (map (ll_ptr_end T) fs)).
+Proof.
+  induction fs as [|f r IH]; intros cur; [reflexivity|].
+  cbn [map offs_from]. unfold ll_align at 1, ll_size at 1.
+  destruct (ll T f) as [s a] eqn:EL. cbn [fst snd combine lastnz].
+  rewrite <- IH. unfold ll_align, ll_size. rewrite EL. reflexivity.
+Qed.
+
+Lemma ll_ptr_end_struct T fs :
+  ll_ptr_end T (TStruct fs) = lastnz (combine (ll_offsets T fs) (map (ll_ptr_end T) fs)).
+Proof. unfold ll_offsets. cbn [ll_ptr_end]. apply ll_ptr_end_struct_aux. Qed.
+
+Lemma fold_pb_lastnz l : forall acc,
+  pb_result (fold_left (pb_step true) l acc) =
+    (if lastnz l =? 0 then pb_result acc else lastnz l).
+Proof.
+  induction l as [|[o b] r IH]; intros acc; [reflexivity|].
+  cbn [fold_left lastnz]. rewrite IH.
+  destruct (lastnz r =? 0) eqn:ER.
+  - unfold pb_step. destruct (b =? 0) eqn:EB.
+    + destruct acc as [fo byt]. cbn [fst snd]. reflexivity.
+    + apply N.eqb_neq in EB. assert (o + b =? 0 = false) as -> by (apply N.eqb_neq; lia).
+      unfold pb_result. reflexivity.
+  - rewrite ER. reflexivity.
+Qed.
+
+Lemma ptrbytes_eq T : agree_target T ->
+  forall t, wf_ty t = true -> nzt t = true -> abi_ptrbytes T true t = ll_ptr_end T t.
+Proof.
+  intros A. induction t using ty_ind'; intros W Z; try reflexivity.
+  - (* TArr *)
+    cbn [abi_ptrbytes ll_ptr_end]. cbn in W, Z. rewrite (IHt W Z), (abi_size_ll T A t W Z).
+    destruct (n =? 0) eqn:En; [reflexivity|]. cbn [orb]. apply N.eqb_neq in En.
+    destruct (ll_ptr_end T t =? 0); [reflexivity|]. nia.
+  - (* TStruct *)
+    rewrite ll_ptr_end_struct. cbn [abi_ptrbytes]. rewrite fold_pb_lastnz. unfold pb_result at 1. cbn [fst].
+    assert (EO : go_offsets T (map raw fs) = ll_offsets T fs).
+    { destruct (go_eq_ll T (raw (TStruct fs)) A) as [_ [_ E]]; [now rewrite wf_raw|now rewrite nzt_raw|].
+      cbn [raw top_fields] in E. rewrite E. unfold ll_offsets. rewrite map_map. f_equal.
+      apply map_ext. intros f. apply ll_raw. now destruct A as [_ [HP _]]. }
+    assert (EP : map (abi_ptrbytes T true) fs = map (ll_ptr_end T) fs).
+    { apply map_ext_in. intros f I. destruct (fields_of_struct fs W Z f I) as [Wf Zf].
+      rewrite Forall_forall in H. now apply H. }
+    rewrite EO, EP. destruct (lastnz _ =? 0) eqn:E0; [apply N.eqb_eq in E0; now rewrite E0|reflexivity].
+Qed.
